@@ -195,7 +195,7 @@ def interpret_tf(tf: bytes, teletext: bool, cct: bytes):
   st = _Attr(teletext)
   lines = [[]]
   flags = {"control": False, "newline": False, "nonascii": False, "double_height": False, "opaque": False,
-           "wild": False, "n_newline_codes": 0}
+           "wild": False, "n_newline_codes": 0, "diacritic_space": False}
   i, n = 0, len(tf)
 
   def gap(real, ctrl):
@@ -231,6 +231,8 @@ def interpret_tf(tf: bytes, teletext: bool, cct: bytes):
         if nxt is not None and is_char_code(nxt):
           # diacritic + space (free-standing accent) and pairs outside the repertoire: not judged
           acc = iso6937_pair(b, nxt) if nxt != 0x20 else None
+          if nxt == 0x20:
+            flags["diacritic_space"] = True
           i += 1
         else:
           acc = None                  # diacritic before a control code / end of field: not judged
